@@ -57,7 +57,7 @@ var decodeTable = map[string]map[string]string{
 func runC10(x *Ctx) {
 	x.C.Rule("C10.R1", "constructors and decoders pass through validate(); validate's decision table", 14)
 	x.C.Rule("C10.R2", "who may write Token fields", 2)
-	x.C.Rule("C10.R3", "decode-side validators per field", 24)
+	x.C.Rule("C10.R3", "decode-side validators per field; policy decoders accept only the expected kinds and arities", 30)
 	x.C.Rule("C10.R4", "integer bound validation: bounds, recursion over all children, Args.Add", 9)
 	x.C.Rule("C10.R5", "lossless unsigned -> int64 conversions", 2)
 	x.C.Rule("C10.R6", "tags distinct; generic decoder dispatch", 5)
@@ -209,6 +209,25 @@ func decodeValidators(x *Ctx) {
 		x.noPath("C10.R3", "policy-bounds", f, paths.WantSuccess, paths.CallFails(func(n string, ct *paths.Term) bool {
 			return n == "pkg/policy/limits.ValidateIntegerBoundsIPLD" && ct.Args[0].String() == "arg0"
 		}), 0, "policy.FromIPLD fails unless ValidateIntegerBoundsIPLD(node) succeeded")
+	}
+	// the policy decoders accept a node only under its kind fact: a value of another kind (an empty map where a
+	// list of statements is expected, say) is a malformed policy, not an empty one
+	kList, _ := x.kindConst("Kind_List")
+	kString, _ := x.kindConst("Kind_String")
+	isList := eqs(fmt.Sprintf("const(%d)", kList), "invoke[github.com/ipld/go-ipld-prime/datamodel.Node.Kind](arg1)")
+	for _, name := range []string{"pkg/policy.statementsFromIPLD", "pkg/policy.statementFromIPLD"} {
+		if f := x.fn("C10.R3", name); f != nil {
+			x.noPath("C10.R3", "kind-guard:"+name, f, paths.WantSuccess, atoms(map[string]bool{isList: false}), 0, "no statement(s) are decoded from a node that is not a list")
+		}
+	}
+	if f := x.fn("C10.R3", "pkg/policy.statementFromIPLD"); f != nil {
+		op := "invoke[github.com/ipld/go-ipld-prime/datamodel.Node.LookupByIndex](arg1,const(0))#0"
+		x.noPath("C10.R3", "operator-is-string", f, paths.WantSuccess, atoms(map[string]bool{eqs(fmt.Sprintf("const(%d)", kString), "invoke[github.com/ipld/go-ipld-prime/datamodel.Node.Kind]("+op+")"): false}), 0, "no statement is decoded unless its first element is a string")
+		x.noPath("C10.R3", "arity", f, paths.WantSuccess, paths.Both(paths.ValueIs("invoke[github.com/ipld/go-ipld-prime/datamodel.Node.Length](arg1)", 1), paths.ValueIs("invoke[github.com/ipld/go-ipld-prime/datamodel.Node.Length](arg1)", 4)), 0, "placeholder")
+		x.C.Obls = x.C.Obls[:len(x.C.Obls)-1]
+		for _, n := range []int64{0, 1, 4} {
+			x.noPath("C10.R3", fmt.Sprintf("arity=%d", n), f, paths.WantSuccess, paths.ValueIs("invoke[github.com/ipld/go-ipld-prime/datamodel.Node.Length](arg1)", n), 0, fmt.Sprintf("a statement tuple of %d elements is rejected", n))
+		}
 	}
 	if f := x.fn("C10.R3", "token/internal/parse.OptionalDID"); f != nil {
 		sel, _, _ := x.E.Select(f, paths.WantSuccess)
